@@ -83,6 +83,20 @@ def run(ctx):
             'C19.guards', construct(pi), 'an aliased __gin__ import is rejected', 'aliased __gin__ imports are no longer rejected', pi.loc(), instance='aliased-enable')
   ctx.check(has(lambda cs: ('self._imports', True) in cs and ("feature == 'dynamic_registration'", True) in cs),
             'C19.guards', construct(pi), 'enabling dynamic registration after another import is rejected', 'a late enabling statement is no longer rejected', pi.loc(), instance='late-enable')
+  en = [n for n in g3.live_nodes() if any(prog.resolve_call(pi, cc) == PCX + '._enable_dynamic_registration' for cc in calls_of_node(n))]
+  def atom_pi(e):
+    t = u(e)
+    if t == 'self._imports':
+      return 'has_imports'
+    if t == 'statement.alias':
+      return 'aliased'
+    return None
+  miss = []
+  for n in en:
+    miss += facts_imply(facts3[n.id], [('no earlier import', 'not has_imports'), ('not aliased', 'not aliased')], atom_pi)
+  ctx.check(bool(en) and not miss, 'C19.guards', construct(pi), 'dynamic registration is switched on only by an un-aliased statement that precedes every other import',
+            'dynamic registration can be switched on although: %s' % ', '.join(l for l, _ in miss) if miss else 'the enabling statement no longer enables dynamic registration',
+            pi.loc(), instance='enable-conditions')
   ctx.check(has(lambda cs: ("feature == 'dynamic_registration'", False) in cs),
             'C19.guards', construct(pi), 'an unknown __gin__ feature is rejected', 'unknown __gin__ features are no longer rejected', pi.loc(), instance='unknown-feature')
   tw = [n for n in g3.live_nodes() if n.kind == 'stmt' and isinstance(n.ast, ast.Assign) and u(n.ast.targets[0]).startswith('self._symbol_table[')]
